@@ -757,6 +757,13 @@ func (a *Authenticator) handleSessionResumption(ctx context.Context, sessionID s
 		responseAd := classad.New()
 		_ = responseAd.Set("ReturnCode", "AUTHORIZED")
 		_ = responseAd.Set("Sid", sessionID)
+		// A fresh value per connection: the first protected frame in each direction
+		// authenticates a digest of everything exchanged in the clear, so with this
+		// the client's recorded frames from an earlier resumption of the same session
+		// no longer verify on this connection (they could be replayed verbatim before).
+		if nonce, nerr := randomHexKey(16); nerr == nil {
+			_ = responseAd.Set("ResumeNonce", nonce)
+		}
 
 		responseMsg := message.NewMessageForStream(a.stream)
 		if err := responseMsg.PutClassAd(ctx, responseAd); err != nil {
@@ -1526,6 +1533,12 @@ func (a *Authenticator) resumeSession(ctx context.Context, entry *SessionEntry, 
 	_ = resumeAd.Set("UseSession", "YES")
 	_ = resumeAd.Set("Sid", entry.ID())
 	_ = resumeAd.Set("ResumeResponse", true) // Request response for modern protocol
+	// A fresh value per connection, so that a server's recorded frames from an
+	// earlier resumption of this session cannot be replayed to us (see the
+	// matching nonce in the server's reply).
+	if nonce, nerr := randomHexKey(16); nerr == nil {
+		_ = resumeAd.Set("ResumeNonce", nonce)
+	}
 	_ = resumeAd.Set("RemoteVersion", DefaultRemoteVersion)
 
 	// Include crypto methods if available from cached policy
